@@ -25,6 +25,9 @@ import PybropsModel.Lemmas.GMapPrune
 import PybropsModel.Lemmas.GMapMeta
 import PybropsModel.Lemmas.MapFnRound
 import PybropsModel.Lemmas.GMapSlice
+import PybropsModel.Lemmas.GMapSpecXo
+import PybropsModel.Lemmas.GMapReachSorted
+import PybropsModel.Lemmas.GMapLexIdx
 set_option linter.unusedSectionVars false
 set_option autoImplicit false
 
@@ -439,6 +442,17 @@ theorem construct_order_independent_std (rows rows' : List (Row α Unit)) (hp : 
 theorem lexsort_three_pass_eq_construct (rows : List (Row α β)) : lexsort3 rows = construct rows :=
   lexsort3_eq_construct rows
 
+/-- `sort()` exactly as the code performs it — `indices = numpy.lexsort((vrnt_genpos, vrnt_phypos, vrnt_chrgrp))`
+    (three stable ARGsorts of `arange(n)`, the chromosome key last), then `reorder(indices)` (fancy indexing of every
+    array, metadata reset) — is the closed form `MapObj.sort` (rows in `construct` order) on every object; and
+    `sort(keys)` with any explicit keys stays inside the reachable objects -/
+theorem sort_as_performed_eq_closed_form (m : MapObj α β) :
+    m.sortKeys [m.rows.map (·.gen), m.rows.map (·.phy), m.rows.map (fun r => (r.chr : α))] = m.sort ∧
+    ∀ (keys : List (List α)), Reach m → Reach (m.sortKeys keys) := by
+  refine ⟨?_, fun keys h => Reach.reorder _ h⟩
+  unfold MapObj.sortKeys MapObj.reorder MapObj.sort
+  rw [take_lexsortIdx_eq_construct]
+
 /-- the constructor sort is stable: rows that agree in all three keys keep the order in which they
     were supplied -/
 theorem construct_stable (rows : List (Row α β)) (x : Row α β) :
@@ -489,6 +503,10 @@ example : interpGenpos ([⟨2, 10, 0, ()⟩, ⟨1, 30, 1/2, ()⟩, ⟨1, 10, 1/8
     ⟨2, 20, 3/8, ()⟩] : List (Row ℚ Unit)) [1, 1, 1, 2, 3] [20, 15, 40, 5, 7] =
     [some (1/4), some (3/16), some (3/4), some (-3/16), none] := by
   decide +kernel
+
+-- non-vacuity: the index array numpy.lexsort returns for the shuffled two-chromosome map, and the rows it selects
+example : lexsortIdx ([[0, 1/2, 1/8, 7/8, 1/4, 3/8], [10, 30, 10, 40, 20, 20], [2, 1, 1, 2, 1, 2]] : List (List ℚ)) 6
+    = [2, 4, 1, 0, 5, 3] := by decide +kernel
 
 /- FULL STATEMENT (false of the as-is model, see counterexample):
      ∀ rows rows', rows.Perm rows' → construct rows = construct rows'
@@ -630,8 +648,8 @@ theorem congruence_loop_eq_closed_form (rows : List (Row α β)) :
   congruenceLit_groupMeta rows
 
 /-- **invariant over operation histories**: every object reachable from a constructor call through `group`,
-    `ungroup`, `reorder`, `remove`, `select` (index or mask), `remove_discrepancies`, `build_spline`,
-    `interp_genpos`, re-assignment of the position arrays and `interp_gmap` (repaired form) carries metadata that
+    `ungroup`, `reorder`, `sort`, `remove`, `select` (index or mask), `remove_discrepancies`, `build_spline`,
+    `interp_genpos`, re-assignment of the position arrays and `interp_gmap` carries metadata that
     describe its own arrays -/
 theorem reachable_map_metadata_valid (m : MapObj α β) (h : Reach m) : m.MetaOk := h.metaOk
 
@@ -654,46 +672,62 @@ theorem reachable_map_own_markers (m : MapObj α β) (h : Reach m) (hv : ValidMa
   rw [(reachable_map_closed_forms m h [r.chr] [r.phy]).2.2]
   simp [interpGenpos, interp_at_own_markers m.rows hv r hr]
 
-/-- the map `interp_gmap` returns (code AS IS) answers from the parent's spline, and stores at each of its
-    markers exactly the value that spline gives there: interpolated at its own markers it returns its stored
-    positions (whenever the call returns) -/
+/-- the map `interp_gmap` returns answers from the parent's spline, and stores at each of its markers exactly
+    the value that spline gives there: interpolated at its own markers it returns its stored positions
+    (whenever the call returns) -/
 theorem derived_map_own_markers (m d m' : MapObj α β) (qchr : List Int) (qphy : List α) (tags : List β)
     (h : m.interpGmap qchr qphy tags = .ok (some (d, m'))) :
     ∃ k, m.spline = some k ∧ d.spline = some k ∧ ∀ r ∈ d.rows, interpOne k r.chr r.phy = some r.gen :=
   MapObj.interpGmap_rows h
 
-/- FULL STATEMENT (false of the as-is model, see counterexample):
-     ∀ m d m' q p t, Reach m → m.interpGmap q p t = .ok (some (d, m')) → d.MetaOk
-   `interp_gmap` copies the four metadata arrays of the PARENT onto the new object; they describe the parent's
-   arrays.  The derived map reports `is_grouped()`, and everything that walks `(stix, spix)` — `congruence`,
-   `is_congruent`, `remove_discrepancies`, and `interp_genpos` through its `is_congruent()` check — reads wrong
-   slices or raises. -/
+/-- **the derived map's metadata describe its own arrays** (it has none: `interp_gmap` leaves the new object
+    ungrouped) — for EVERY parent object, every query, every riding column; no hypothesis beyond "the call
+    returned".  This is the full statement that was false before the repair of D110 (see the
+    `…_prerepair_counterexample` below). -/
+theorem derived_map_metadata_valid (m d m' : MapObj α β) (qchr : List Int) (qphy : List α) (tags : List β)
+    (h : m.interpGmap qchr qphy tags = .ok (some (d, m'))) : d.gmeta = none ∧ d.MetaOk :=
+  ⟨MapObj.interpGmap_gmeta h, MapObj.metaOk_interpGmap h⟩
 
-/-- parent: 3 + 3 markers; derived map: 2 + 3 markers.  The derived map carries `[(1,0,3,3), (2,3,6,3)]`, its
-    own arrays would give `[(1,0,2,2), (2,2,5,3)]`; `interp_genpos` on it raises ValueError (operands of shapes
-    (2,) and (1,) in `congruence()`); with the repair (metadata left `None`) it answers, and at its own markers
-    returns its stored positions -/
-theorem interp_gmap_stale_metadata_counterexample :
+/-- `interp_gmap` never raises on a reachable map (before the repair it did on derived maps: their
+    `interp_genpos` raised) -/
+theorem interp_gmap_never_raises (m : MapObj α β) (hm : Reach m) (qchr : List Int) (qphy : List α) (tags : List β) :
+    errOf (m.interpGmap qchr qphy tags) = none :=
+  MapObj.interpGmap_no_error hm.metaOk qchr qphy tags
+
+/- FULL STATEMENT (false of the PRE-REPAIR model, see counterexample; true of the model as it is now:
+   `derived_map_metadata_valid`):
+     ∀ m d m' q p t, Reach m → m.interpGmapPrerepair q p t = .ok (some (d, m')) → d.MetaOk
+   Before the repair `interp_gmap` copied the four metadata arrays of the PARENT onto the new object; they
+   describe the parent's arrays.  The derived map reported `is_grouped()`, and everything that walks
+   `(stix, spix)` — `congruence`, `is_congruent`, `remove_discrepancies`, and `interp_genpos` through its
+   `is_congruent()` check — read wrong slices or raised. -/
+
+/-- parent: 3 + 3 markers; derived map: 2 + 3 markers.  Before the repair the derived map carried
+    `[(1,0,3,3), (2,3,6,3)]`, its own arrays would give `[(1,0,2,2), (2,2,5,3)]`; `interp_genpos` on it raised
+    ValueError (operands of shapes (2,) and (1,) in `congruence()`); with the repair (metadata left `None`) it
+    answers, and at its own markers returns its stored positions -/
+theorem interp_gmap_stale_metadata_prerepair_counterexample :
     let parent : MapObj ℚ Unit := MapObj.new [⟨1, 10, 0, ()⟩, ⟨1, 20, 1/8, ()⟩, ⟨1, 30, 1/4, ()⟩, ⟨2, 10, 0, ()⟩,
       ⟨2, 20, 3/8, ()⟩, ⟨2, 30, 1/2, ()⟩]
     let q : List Int := [1, 1, 2, 2, 2]
     let p : List ℚ := [12, 25, 11, 15, 28]
     let t : List Unit := [(), (), (), (), ()]
-    (derivedOf (parent.interpGmap q p t)).map (·.gmeta) = some (some [(1, 0, 3, 3), (2, 3, 6, 3)]) ∧
-    (derivedOf (parent.interpGmap q p t)).map (fun d => groupMeta d.rows) = some [(1, 0, 2, 2), (2, 2, 5, 3)] ∧
-    (derivedOf (parent.interpGmap q p t)).map (fun d => errOf (d.interpGenposLit q p)) = some (some Err.value) ∧
-    (derivedOf (parent.interpGmapFixed q p t)).map (fun d => errOf (d.interpGenposLit q p)) = some none ∧
-    (derivedOf (parent.interpGmapFixed q p t)).map (fun d => (d.interpGenpos q p).1 == some (d.rows.map (some ·.gen)))
+    (derivedOf (parent.interpGmapPrerepair q p t)).map (·.gmeta) = some (some [(1, 0, 3, 3), (2, 3, 6, 3)]) ∧
+    (derivedOf (parent.interpGmapPrerepair q p t)).map (fun d => groupMeta d.rows) = some [(1, 0, 2, 2), (2, 2, 5, 3)] ∧
+    (derivedOf (parent.interpGmapPrerepair q p t)).map (fun d => errOf (d.interpGenposLit q p)) = some (some Err.value) ∧
+    (derivedOf (parent.interpGmap q p t)).map (·.grouped) = some false ∧
+    (derivedOf (parent.interpGmap q p t)).map (fun d => errOf (d.interpGenposLit q p)) = some none ∧
+    (derivedOf (parent.interpGmap q p t)).map (fun d => (d.interpGenpos q p).1 == some (d.rows.map (some ·.gen)))
       = some true := by
   decide +kernel
 
-/-- the as-is `interp_gmap` is harmless exactly when the copied metadata happen to fit: same label array as the
-    parent (e.g. the parent's own markers, in stored order) -/
-theorem derived_map_metadata_valid_partial (m d m' : MapObj α β) (qchr : List Int) (qphy : List α) (tags : List β)
-    (hm : Reach m) (h : m.interpGmap qchr qphy tags = .ok (some (d, m')))
+/-- the pre-repair `interp_gmap` was harmless exactly when the copied metadata happened to fit: same label array
+    as the parent (e.g. the parent's own markers, in stored order) -/
+theorem derived_map_metadata_valid_prerepair_partial (m d m' : MapObj α β) (qchr : List Int) (qphy : List α)
+    (tags : List β) (hm : Reach m) (h : m.interpGmapPrerepair qchr qphy tags = .ok (some (d, m')))
     (hl : d.rows.map (·.chr) = m'.rows.map (·.chr)) : d.MetaOk := by
   -- the parent after the call is `m` after `interp_genpos` (grouped as a side effect): reachable
-  unfold MapObj.interpGmap at h
+  unfold MapObj.interpGmapPrerepair at h
   rw [MapObj.interpGenposLit_of_metaOk hm.metaOk] at h
   cases hi : (m.interpGenpos qchr qphy).1 with
   | none =>
@@ -734,12 +768,30 @@ theorem gdist1_loop_eq_closed_form_stored (rows : List (Row α β)) (gen : List 
   · rw [List.pairwise_map]
     exact (construct_sorted rows).imp (fun h => rowLe_chr_le h)
 
+/-- **second invariant over operation histories**: every reachable object that reports `is_grouped()` has a sorted
+    label array (its rows need not be sorted any more: re-assigned position arrays keep labels and metadata), so
+    the sequential-distance loop on the object's OWN label array is the closed form — the documented precondition
+    of `gdist1g` ("must be sorted") is met by every grouped map however it was edited -/
+theorem reachable_grouped_map_gdist1_loop (m : MapObj α β) (h : Reach m) (hg : m.grouped = true)
+    (gen : List (Option α)) (hlen : m.rows.length ≤ gen.length) :
+    (m.rows.map (·.chr)).Pairwise (· ≤ ·) ∧
+    gdist1gLit (m.rows.map (·.chr)) gen = (gdist1g (m.rows.map (·.chr)) gen).map some := by
+  have hs := h.groupedSorted hg
+  exact ⟨hs, gdist1_loop_eq_closed_form_sorted_partial _ gen (by rw [List.length_map]; exact hlen) hs⟩
+
 end metadata
 
--- non-vacuity: a reachable derived map (repaired `interp_gmap`) over ℚ that is a valid map
+-- non-vacuity of `reachable_grouped_map_gdist1_loop`: a reachable GROUPED object whose rows are no longer sorted by
+-- physical position (`vrnt_phypos` re-assigned: 10, 20 became 20, 10), labels still sorted
+example : ∃ m : MapObj ℚ Unit, Reach m ∧ m.grouped = true ∧ construct m.rows ≠ m.rows :=
+  ⟨(MapObj.new [⟨1, 10, 0, ()⟩, ⟨1, 20, 1, ()⟩, ⟨2, 5, 0, ()⟩, ⟨2, 7, 1, ()⟩]).assign
+      [⟨1, 20, 0, ()⟩, ⟨1, 10, 1, ()⟩, ⟨2, 5, 0, ()⟩, ⟨2, 7, 1, ()⟩],
+    Reach.assign _ (Reach.new _ true true) (by decide +kernel), by decide +kernel, by decide +kernel⟩
+
+-- non-vacuity: a reachable derived map over ℚ that is a valid map
 example : ∃ d : MapObj ℚ Unit, Reach d ∧ ValidMap d.rows ∧ d.rows.length = 5 := by
   have hd : (derivedOf ((MapObj.new ([⟨1, 10, 0, ()⟩, ⟨1, 20, 1/8, ()⟩, ⟨1, 30, 1/4, ()⟩, ⟨2, 10, 0, ()⟩,
-      ⟨2, 20, 3/8, ()⟩, ⟨2, 30, 1/2, ()⟩] : List (Row ℚ Unit))).interpGmapFixed [1, 1, 2, 2, 2] [12, 25, 11, 15, 28]
+      ⟨2, 20, 3/8, ()⟩, ⟨2, 30, 1/2, ()⟩] : List (Row ℚ Unit))).interpGmap [1, 1, 2, 2, 2] [12, 25, 11, 15, 28]
         [(), (), (), (), ()])).map (·.rows) =
       some [⟨1, 12, 1/40, ()⟩, ⟨1, 25, 3/16, ()⟩, ⟨2, 11, 3/80, ()⟩, ⟨2, 15, 3/16, ()⟩, ⟨2, 28, 19/40, ()⟩] := by
     decide +kernel
@@ -841,6 +893,63 @@ example : ValidMap ([⟨1, 0, 0, ()⟩, ⟨1, 1, 1, ()⟩] : List (Row ℝ Unit)
     simp only [List.mem_cons, List.not_mem_nil, or_false] at ha hb
     rcases ha with rfl | rfl <;> rcases hb with rfl | rfl <;> first | (show (_ : ℝ) ≤ _; norm_num; done) | (exfalso; norm_num at hlt)
 
+/-! each of the three hypotheses of `xoprob_range_partial` is needed: dropping any one of them, the as-is
+    `interp_xoprob` assigns a value that is not a probability in [0, ½] — for both map functions -/
+
+/-- a valid map that is NOT congruent (genetic position 1 at physical position 0, 0 at 1), two sorted variants on
+    its markers: the second "probability" is the map function of −1, a negative number -/
+theorem xoprob_range_not_congruent_counterexample (k : MapKind) :
+    ∃ r : ℝ, (interpXoprob id (k.fn : ℝ → ℝ) ([⟨1, 0, 1, ()⟩, ⟨1, 1, 0, ()⟩] : List (Row ℝ Unit)) [1, 1] [0, 1]).2[1]?
+      = some (GDist.fin r) ∧ r < 0 := by
+  have hv : ValidMap ([⟨1, 0, 1, ()⟩, ⟨1, 1, 0, ()⟩] : List (Row ℝ Unit)) := by
+    refine ⟨by simp [NoDupPhys], ?_⟩
+    intro r hr
+    simp only [List.mem_cons, List.not_mem_nil, or_false] at hr
+    rcases hr with rfl | rfl <;> simp [nMarkers]
+  have h0 := interp_at_own_markers _ hv ⟨1, 0, 1, ()⟩ (by simp)
+  have h1 := interp_at_own_markers _ hv ⟨1, 1, 0, ()⟩ (by simp)
+  simp only at h0 h1
+  obtain ⟨-, -, hs⟩ := xoprob_def (k.fn : ℝ → ℝ) ([⟨1, 0, 1, ()⟩, ⟨1, 1, 0, ()⟩] : List (Row ℝ Unit)) [1, 1] [0, 1]
+  refine ⟨k.fn (0 - 1), ?_, ?_⟩
+  · rw [hs 0, zip_interpGenpos]
+    simp [h0, h1, subPos, mapD]
+  · have := mapfn_negative_distance_counterexample k
+    norm_num at this ⊢
+    exact this
+
+/-- a congruent valid map, but the variants NOT sorted by physical position (1 before 0): same negative value -/
+theorem xoprob_range_unsorted_variants_counterexample (k : MapKind) :
+    ∃ r : ℝ, (interpXoprob id (k.fn : ℝ → ℝ) ([⟨1, 0, 0, ()⟩, ⟨1, 1, 1, ()⟩] : List (Row ℝ Unit)) [1, 1] [1, 0]).2[1]?
+      = some (GDist.fin r) ∧ r < 0 := by
+  have hv : ValidMap ([⟨1, 0, 0, ()⟩, ⟨1, 1, 1, ()⟩] : List (Row ℝ Unit)) := by
+    refine ⟨by simp [NoDupPhys], ?_⟩
+    intro r hr
+    simp only [List.mem_cons, List.not_mem_nil, or_false] at hr
+    rcases hr with rfl | rfl <;> simp [nMarkers]
+  have h0 := interp_at_own_markers _ hv ⟨1, 0, 0, ()⟩ (by simp)
+  have h1 := interp_at_own_markers _ hv ⟨1, 1, 1, ()⟩ (by simp)
+  simp only at h0 h1
+  obtain ⟨-, -, hs⟩ := xoprob_def (k.fn : ℝ → ℝ) ([⟨1, 0, 0, ()⟩, ⟨1, 1, 1, ()⟩] : List (Row ℝ Unit)) [1, 1] [1, 0]
+  refine ⟨k.fn (0 - 1), ?_, ?_⟩
+  · rw [hs 0, zip_interpGenpos]
+    simp [h0, h1, subPos, mapD]
+  · have := mapfn_negative_distance_counterexample k
+    norm_num at this ⊢
+    exact this
+
+/-- variants on a chromosome ABSENT from the map: the value is NaN, not a probability -/
+theorem xoprob_range_absent_chromosome_counterexample (f : ℝ → ℝ) :
+    (interpXoprob id f ([⟨1, 0, 0, ()⟩, ⟨1, 1, 1, ()⟩] : List (Row ℝ Unit)) [2, 2] [0, 1]).2[1]? = some GDist.nan := by
+  have ha : ∀ x : ℝ, interpOne ([⟨1, 0, 0, ()⟩, ⟨1, 1, 1, ()⟩] : List (Row ℝ Unit)) 2 x = none := by
+    intro x
+    apply interpOne_absent
+    intro r hr
+    simp only [List.mem_cons, List.not_mem_nil, or_false] at hr
+    rcases hr with rfl | rfl <;> simp
+  obtain ⟨-, -, hs⟩ := xoprob_def f ([⟨1, 0, 0, ()⟩, ⟨1, 1, 1, ()⟩] : List (Row ℝ Unit)) [2, 2] [0, 1]
+  rw [hs 0, zip_interpGenpos]
+  simp [ha, subPos, mapD]
+
 /-! ## 4b. Both genetic-map classes
 
 Every definition and theorem above is generic in the type `β` of the columns that ride along with a marker.
@@ -871,6 +980,28 @@ theorem standard_map_laws (rows : List (StdRow α)) (hv : ValidMap rows) : MapCl
 theorem extended_map_laws (rows : List (ExtRow α)) (hv : ValidMap rows) : MapClassLaws rows :=
   map_class_laws rows hv
 
+/-- **closure of the laws under `interp_gmap`**: the map derived from a reachable map is reachable, so the methods
+    as written never raise on it and are their closed forms; `interp_gmap` itself never raises on a reachable
+    parent; after `build_spline()` the derived map answers from ITS OWN arrays, and when these form a valid map
+    it returns its stored positions at its own markers — through the methods as written -/
+theorem derived_map_laws (m d m' : MapObj α β) (hm : Reach m) (qchr : List Int) (qphy : List α) (tags : List β)
+    (h : m.interpGmap qchr qphy tags = .ok (some (d, m'))) :
+    Reach d ∧ Reach m' ∧
+    (∀ q p, d.interpGenposLit q p = .ok (d.interpGenpos q p)) ∧
+    d.removeDiscrepanciesLit = .ok d.removeDiscrepancies ∧
+    (∀ q p, (d.buildSpline.interpGenposLit q p).map Prod.fst = .ok (some (interpGenpos d.rows q p))) ∧
+    (ValidMap d.rows → MapClassLaws d.rows ∧ ∀ r ∈ d.rows,
+        (d.buildSpline.interpGenposLit [r.chr] [r.phy]).map Prod.fst = .ok (some [some r.gen])) := by
+  have hd : Reach d := Reach.derived qchr qphy tags hm h
+  have hm' : Reach m' := by
+    have := MapObj.interpGmap_parent hm.metaOk h
+    rw [this]
+    exact Reach.interpGenpos qchr qphy hm
+  refine ⟨hd, hm', fun q p => (reachable_map_closed_forms d hd q p).1, (reachable_map_closed_forms d hd [] []).2.1,
+    fun q p => (reachable_map_closed_forms d hd q p).2.2, ?_⟩
+  intro hv
+  exact ⟨map_class_laws d.rows hv, fun r hr => reachable_map_own_markers d hd hv r hr⟩
+
 end classes
 
 -- non-vacuity for the extended class: a shuffled map with names on some rows only; the constructor moves the
@@ -887,8 +1018,10 @@ example : ValidMap ([⟨1, 30, 1/2, ⟨37, some "m0", none⟩⟩, ⟨1, 10, 1/8,
 The driver evaluates `Spec.specInterp` / `Spec.specGdist` on the IMPLEMENTATION's outputs.  The theorems
 below tie these Bool functions to the property theorems in both directions: they never reject what the
 proved model computes (no false alarm from the oracle itself), and whatever they accept at zero tolerance
-satisfies the conclusions of the theorems.  (`specXoprob` and `specMapfn` involve `Float.exp/log/tanh`,
-opaque to proof; they are tied to the model by the per-run `self` verdict only.) -/
+satisfies the conclusions of the theorems.  `specXoprob` is generic in the scalar type the map function is
+evaluated in (`Float` in the driver) and accepts the model's output for every such type; `specMapfn` is read as
+a proposition (`MapfnLaw`).  What stays outside proof is `Float.exp/log/tanh` themselves (compared with libm on
+every run) — the `self` verdict of every Spec op re-checks the oracle against the model's output per case. -/
 section oracles
 open GMap.Spec
 
@@ -945,7 +1078,32 @@ theorem spec_gdist_exact_sound (chr : List Int) (gen : List (Option ℚ)) (d1 : 
         valAt gen k ≤ valAt gen (k + 1) → seqAt d1 (k + 1) = seqAt (gdist1g chr gen) (k + 1)) :=
   specGdist_exact_sound chr gen d1 d2 hl h
 
+/-- the crossover-probability oracle accepts the model's `interp_xoprob` on every valid map and variant array,
+    whatever the scalar type `γ` the map function is evaluated in (the driver: `Float`), whatever the function:
+    no property of floating point is used -/
+theorem spec_xoprob_accepts_model {γ : Type} [Div γ] [OfNat γ 1] [OfNat γ 2] (cast : ℚ → γ) (f : γ → γ)
+    (back : GDist γ → GDist ℚ) (hnan : back .nan = .nan) (hhalf : back (.fin half) = .fin (1 / 2))
+    (t : Tol) (ht : 0 ≤ t.abs_) (rows : List (Row ℚ Int)) (hv : ValidMap rows) (qchr : List Int) (qphy : List ℚ)
+    (hl : qphy.length = qchr.length) :
+    (specXoprob cast f back rows qchr qphy (interpXoprob cast f rows qchr qphy).1
+      ((interpXoprob cast f rows qchr qphy).2.map back) t).1 = true :=
+  specXoprob_accepts_model cast f back hnan hhalf t ht rows hv qchr qphy hl
+
+/-- the map-function oracle read as a proposition: it accepts `r = mapfn(d)`, `dinv = invmapfn(r)` exactly when
+    zero goes to zero, infinity to one half, every value lies in [0, ½], the values are monotone in the distances
+    and the inverse returns every distance to the proven conditioning of the round trip (`InvOk`: tolerance
+    `invTol`, nothing once binary64 cannot resolve `1 − 2r`) -/
+theorem spec_mapfn_iff (kappa : Nat) (d r dinv : List (GDist ℚ)) :
+    (specMapfn kappa d r dinv).1 = true ↔ MapfnLaw kappa d r dinv :=
+  specMapfn_iff kappa d r dinv
+
 end oracles
+
+-- non-vacuity: the identity instance (γ = ℚ) of the crossover-probability oracle meets its hypotheses, and the
+-- map-function oracle accepts an exact table of the piecewise-linear "map function" min(d, ½) with a true inverse
+example : (id (GDist.nan : GDist ℚ) = GDist.nan) ∧ id (GDist.fin (half : ℚ)) = GDist.fin (1 / 2) := ⟨rfl, rfl⟩
+example : (GMap.Spec.specMapfn 2 [.fin 0, .fin (1/4), .inf] [.fin 0, .fin (1/4), .fin (1/2)] [.fin 0, .fin (1/4), .inf]).1
+    = true := by decide +kernel
 
 -- non-vacuity: the oracle really evaluates (kernel) on the shuffled two-chromosome map used above, and it
 -- rejects an answer that is off by 1/8 at one query
